@@ -37,9 +37,17 @@ type propSpec struct {
 
 var verifDir = "/verif"
 
+// outDir receives evidence/ and replays/ (VERIF_OUT; default: verifDir). Runs
+// against deliberately broken copies of the repository write elsewhere.
+var outDir = ""
+
 func main() {
 	if d := os.Getenv("VERIF_DIR"); d != "" {
 		verifDir = d
+	}
+	outDir = verifDir
+	if d := os.Getenv("VERIF_OUT"); d != "" {
+		outDir = d
 	}
 	args := os.Args[1:]
 	if len(args) < 2 {
@@ -754,7 +762,7 @@ func report(prop string, spec propSpec, tier string, seed int64, results []*case
 		sigs = append(sigs, s)
 	}
 	sort.Strings(sigs)
-	os.MkdirAll(filepath.Join(verifDir, "replays"), 0o755)
+	os.MkdirAll(filepath.Join(outDir, "replays"), 0o755)
 	newViol := 0
 	knownHit := map[string]int{}
 	var lines []string
@@ -771,7 +779,7 @@ func report(prop string, spec propSpec, tier string, seed int64, results []*case
 		if len(rp.Viols) == 0 {
 			rp.Viols = []proto.Viol{a.viol}
 		}
-		path := filepath.Join(verifDir, "replays", fmt.Sprintf("%s-%s.json", prop, proto.Hash(sig)))
+		path := filepath.Join(outDir, "replays", fmt.Sprintf("%s-%s.json", prop, proto.Hash(sig)))
 		b, _ := json.MarshalIndent(rp, "", " ")
 		os.WriteFile(path, b, 0o644)
 		lines = append(lines, fmt.Sprintf("VIOLATION property=%s replay=%s sig=%q cases=%d first=%s :: %s", prop, path, sig, a.n, a.first.ID, oneLine(a.viol.Msg)))
@@ -825,8 +833,8 @@ func report(prop string, spec propSpec, tier string, seed int64, results []*case
 		"coverage": cov, "assumptions": spec.Assume, "wall_s": wall, "violations": newViol,
 	}
 	b, _ := json.MarshalIndent(ev, "", " ")
-	os.MkdirAll(filepath.Join(verifDir, "evidence"), 0o755)
-	os.WriteFile(filepath.Join(verifDir, "evidence", prop+".json"), append(b, '\n'), 0o644)
+	os.MkdirAll(filepath.Join(outDir, "evidence"), 0o755)
+	os.WriteFile(filepath.Join(outDir, "evidence", prop+".json"), append(b, '\n'), 0o644)
 
 	fmt.Printf("%s %s seed=%d: cases=%d held=%d inconclusive=%d violated=%d distinct_nontrivial=%d known=%d new=%d races=%d wall=%.1fs\n",
 		prop, tier, seed, evals, held, inconc, violCases, len(paths), len(knownHit), newViol, raceBlocks, wall)
@@ -837,7 +845,7 @@ func report(prop string, spec propSpec, tier string, seed int64, results []*case
 		return 1
 	}
 	if missing > 0 || evals == 0 {
-		fmt.Printf("VIOLATION property=%s replay=%s sig=%q :: the run did not complete its case list\n", prop, filepath.Join(verifDir, "evidence", prop+".json"), prop+"|incomplete-run")
+		fmt.Printf("VIOLATION property=%s replay=%s sig=%q :: the run did not complete its case list\n", prop, filepath.Join(outDir, "evidence", prop+".json"), prop+"|incomplete-run")
 		return 1
 	}
 	return 0
